@@ -87,7 +87,9 @@ CHECKS = {
              'at which the server stream can be cut (and refusal / Hello-error / garbage scripts) the connect Deferred must '
              'fire exactly once with the right outcome at quiescence. An established connection with calls, timers, '
              'proxies of every kind and disconnect callbacks is lost after every prefix of a generated history; every '
-             'pending call must fail once with the reason, timers vanish, callbacks run once, nothing fires later.',
+             'pending call must fail once with the reason, timers vanish, callbacks run once, nothing fires later. The same '
+             'with errbacks and disconnect callbacks that re-enter the connection while being notified (issue a call, '
+             'cancel themselves or another callback), all action pairs enumerated for small scenarios.',
         note='liveness decided as bounded safety at quiescence (transport closed, virtual clock dry); ' + TRUST),
     'C10': dict(
         category='exploration', design_ref='DESIGN.md section 3 C10',
@@ -112,7 +114,8 @@ CHECKS = {
         category='exploration', design_ref='DESIGN.md section 3 C12',
         technique='stateful add/remove/deliver histories (Hypothesis) against an independent reference matcher; rule-text round trip through a reference parser',
         text='Rule sets over all constraint keys and messages built from pools containing matches, single-key near-misses and '
-             'prefix-sharing siblings are run as add/remove/deliver histories on MessageRouter, through '
+             'prefix-sharing siblings (half of the messages derived from a rule with one constrained place perturbed; value '
+             'and path constraints on different arguments of one rule) are run as add/remove/deliver histories on MessageRouter, through '
              'DBusClientConnection.addMatch/delMatch (rule text parsed back by a reference match-rule parser), through '
              'proxy signal subscriptions with matching and mismatching signatures, and through Bus.dbus_AddMatch; after '
              'each delivery the invoked callbacks must equal the active rules the reference matcher accepts.',
@@ -121,7 +124,8 @@ CHECKS = {
         category='exploration', design_ref='DESIGN.md section 3 C13',
         technique='model-based testing: bounded-exhaustive + random name-ownership histories on the real Bus against a reference name table',
         text='Every history of RequestName (8 flag words) / ReleaseName / disconnect of length <=3 (quick) / <=4 (thorough) '
-             'by 3 clients on one name, and random histories to 40 steps with 4 clients and 2 names, run on the real Bus '
+             'by 3 clients on one name, three requests with all 8^3 flag words followed by every operation (pair of operations '
+             'in the thorough tier), and random histories to 40 steps with 4 clients and 2 names, run on the real Bus '
              'through raw scripted clients (real handshake, Hello, wire messages); after every step reply code, '
              'NameAcquired/NameLost signals, GetNameOwner and ListQueuedOwners are compared with a reference name table. '
              'requestBusName flag bits and FailedToAcquireName mapping are enumerated exhaustively.',
@@ -129,7 +133,8 @@ CHECKS = {
     'C14': dict(
         category='exploration', design_ref='DESIGN.md section 3 C14',
         technique='model-based routing histories with generated/exhaustive delivery interleavings on the real Bus',
-        text='Histories of connects, disconnects, name ownership incl. waiting clients, AddMatch/RemoveMatch and bursts of '
+        text='Histories of connects, disconnects, name ownership incl. waiting clients, replaceable owners and take-overs, '
+             'AddMatch/RemoveMatch and bursts of '
              'in-flight unicast (all four types, forged/absent/true sender, either byte order, bodies from the full value '
              'space) and broadcast messages; the bus reads the per-client byte queues in drawn (client, chunk) '
              'interleavings, exhaustively at message granularity for 2-3 clients x 2-3 messages; every client inbox is '
@@ -149,7 +154,8 @@ CHECKS = {
         category='exploration', design_ref='DESIGN.md section 3 C16',
         technique='model-based export/unexport histories: bounded-exhaustive + Hypothesis, every path queried after every step',
         text='All admissible export/unexport histories to length 4/5 over a 6-path pool with prefix traps, and random ones '
-             'to 30 steps over 9 paths, run on DBusObjectHandler; after every step an ordinary call, Introspect and '
+             'to 30 steps over 9 paths (three object classes incl. a subclass extending an inherited interface; re-export of '
+             'a fresh object or of the same instance), run on DBusObjectHandler; after every step an ordinary call, Introspect and '
              'GetManagedObjects are issued at every pool path and compared with a set model; the InterfacesAdded / '
              'InterfacesRemoved signals of every step are checked.',
         note='recording connection stub; replies decoded by the strict reference decoder; ' + TRUST),
@@ -184,7 +190,8 @@ CHECKS = {
         text='Sender: generated calls with 0-3 descriptors through callRemote on a UNIX transport double; descriptors '
              'must precede the bytes in argument order and the header must declare their count. Receiver: generated '
              'streams with every stream-consistent placement of descriptor arrivals (exhaustive for <=3 messages x <=2 '
-             'descriptors, random with byte-level splitting beyond); each h argument must resolve to its own token.',
+             'descriptors, random with byte-level splitting beyond, bursts of up to 14 messages / 42 descriptors queued ahead '
+             'of the bytes); each h argument must resolve to its own token.',
         note='the kernel is represented by the stream model in the property statement (transport double); ' + TRUST),
 }
 
